@@ -552,7 +552,7 @@ func genNames(c *ctx) {
 						}
 					}
 				}
-				if want != "" && !strings.ContainsRune(want, 0) {
+				if want != "" && !strings.ContainsRune(want, 0) && want != "." && want != ".." && !strings.Contains(want, "/") {
 					if what := c09FreshShape(cur, want, local); what != "" {
 						c09Violate(c, "fresh-shape:"+key, "the local name is not the first free one of name, name.0, name.1, ...",
 							fmt.Sprintf("%s: requested %q, stored as %q: %s", key, want, local, what))
